@@ -771,6 +771,7 @@ int cif_parse_internal(struct scanner_s *scanner, int not_utf8, const char *extr
         UChar c;
 
         INIT_V2_SCANNER(scanner, extra_ws, extra_eol);
+        scanner->cr_pending = CIF_FALSE;
         scanner->next_char = scanner->buffer;
         scanner->text_start = scanner->buffer;
         scanner->tvalue_start = scanner->buffer;
@@ -3151,17 +3152,8 @@ static int get_first_char(struct scanner_s *scanner) {
         } else if (ch == UCHAR_CR) { /* convert CR and CRLF to LF */
             *scanner->buffer = UCHAR_NL;
 
-            /* try to convert one more character, to check for CRLF */
-            nread = scanner->read_func(scanner->char_source, scanner->buffer + 1, scanner->buffer_size - 1,
-                    &read_error);
-            if (nread < 0) {
-                return read_error;
-            } else if (nread == 0) {
-                scanner->at_eof = CIF_TRUE;  /* but don't return CIF_EOF, because we do provide one character */
-            } else if (*(scanner->buffer + 1) != UCHAR_NL) {
-                scanner->buffer_limit += 1;
-            } /* else the buffer limit will overall be increased by 1 only, effectively consuming the NL */
-
+            /* if the next character turns out to be a line feed then get_more_chars() will drop it */
+            scanner->cr_pending = CIF_TRUE;
         }
 
         scanner->buffer_limit += 1;
@@ -3247,9 +3239,24 @@ static int get_more_chars(struct scanner_s *scanner) {
     } else {
         /* convert line terminators */
         UChar *lead = scanner->buffer + scanner->buffer_limit; /* a pointer to the character being probed */
-        UChar *bound = lead + nread;
+        UChar *bound;
         UChar *trail;
         UChar *dest;
+
+        if (scanner->cr_pending && (*lead == UCHAR_NL)) {
+            /*
+             * This line feed completes a CR LF pair whose carriage return was the last character previously read (and
+             * was already converted to a line feed); drop it.
+             */
+            nread -= 1;
+            scanner->cr_pending = CIF_FALSE;
+            if (nread == 0) {
+                return get_more_chars(scanner);
+            }
+            u_memmove(lead, lead + 1, nread);
+        }
+        bound = lead + nread;
+        scanner->cr_pending = (*(bound - 1) == UCHAR_CR);
 
         do {
             lead = u_memchr(lead, UCHAR_CR, bound - lead);
